@@ -415,9 +415,8 @@ def run(tier: str, rng: random.Random, proof_ok: bool) -> dict:
     r = construction_history(tier)
     if r:
         report("C19:equal-but-construction-history", r, {"construction_history": True})
-    r = factory_configurations()
-    if r:
-        report("C19:equal-but-different-behaviour", r, {"factory_configurations": True})
+    for sig_, what_ in factory_configurations():
+        report(sig_, what_, {"factory_configurations": sig_})
     # model vs implementation on the equality verdicts
     mism = model_verdicts(lines, violations)
     cov = {"evaluations": n_pairs + n_rebuild + n_probe, "distinct_nontrivial": n_pairs,
@@ -504,7 +503,7 @@ def construction_history(tier: str) -> Optional[str]:
     return None
 
 
-def factory_configurations() -> Optional[str]:
+def factory_configurations() -> list:
     """Configuration objects made by one factory with different parameters (coercers, predicates, processors built
     from one function or lambda definition): validators holding them are equal only if they behave equally."""
     from koda import Just, nothing
@@ -529,6 +528,24 @@ def factory_configurations() -> Optional[str]:
              (ListValidator(IntValidator(coerce=int_in_base(10))), ListValidator(IntValidator(coerce=int_in_base(16))), [["10"], ["ff"]]),
              (OptionalValidator(IntValidator(coerce=int_in_base(2))), OptionalValidator(IntValidator(coerce=int_in_base(10))), ["10", "2", None]),
              (IntValidator(coerce=Coercer(lambda v: Just(1), {str})), IntValidator(coerce=Coercer(lambda v: Just(2), {str})), ["x"])]
+    # parameters that are == although their types differ (1 / 1.0 / True / Decimal(1)): whenever the library calls
+    # two such validators equal, they answer alike
+    from decimal import Decimal
+    from koda_validate import (Choices, DecimalValidator, EqualsValidator, EqualTo, FloatValidator, Max, Min, MultipleOf)
+    nums = [1, 1.0, True, Decimal(1), 5, 5.0, Decimal(5), 2, 2.0, 4.0, 4, Decimal("2.0"), 0, False, 0.0, "1"]
+    for mk in (lambda p: FloatValidator(p), lambda p: IntValidator(p), lambda p: DecimalValidator(p),
+               lambda p: ListValidator(FloatValidator(p))):
+        for P_ in (EqualTo, Min, Max, MultipleOf, lambda z: Choices({z}), lambda z: Min(z, exclusive_minimum=True)):
+            for z1, z2 in ((1, 1.0), (1, True), (5, Decimal(5)), (2, 2.0), (1.0, Decimal(1)), (0, False), (2, Decimal("2.0"))):
+                try:
+                    a_, b_ = mk(P_(z1)), mk(P_(z2))
+                except Exception:  # noqa
+                    continue
+                xs_ = [[n_] for n_ in nums] if isinstance(a_, ListValidator) else nums
+                pairs.append((a_, b_, xs_))
+    pairs += [(EqualsValidator(1), EqualsValidator(1.0), nums), (EqualsValidator(1), EqualsValidator(True), nums),
+              (EqualsValidator(Decimal(5)), EqualsValidator(5), nums)]
+    found: dict = {}
     for a, b, xs in pairs:
         try:
             eq = bool(a == b)
@@ -549,8 +566,19 @@ def factory_configurations() -> Optional[str]:
                 v1 = getattr(r1, "val", r1) if getattr(r1, "is_valid", False) else None
                 v2 = getattr(r2, "val", r2) if getattr(r2, "is_valid", False) else None
                 if getattr(r1, "is_valid", None) != getattr(r2, "is_valid", None) or v1 != v2:
-                    return f"{a!r} == {b!r} (their coercers come from one factory with different parameters) yet on {x!r} ({mode}) they return {r1!r} and {r2!r}"
-    return None
+                    what = f"{a!r} == {b!r} (configuration objects from one factory / parameters that are == across types) yet on {x!r} ({mode}) they return {r1!r} and {r2!r}"
+                    # one specific way of differing is a recorded finding: a float met a Decimal parameter (or the
+                    # other way round) in arithmetic, which Python refuses
+                    mixed = any(isinstance(r_, TypeError) and "unsupported operand type(s)" in str(r_) and "Decimal" in str(r_) and "float" in str(r_)
+                                for r_ in (r1, r2))
+                    sig = "C19:equal-but-mixed-arithmetic-raises" if mixed else "C19:equal-but-different-behaviour"
+                    if sig not in found:
+                        found[sig] = what
+    return [(k, v) for k, v in found.items()]
+
+
+def probe_known(k: dict) -> bool:
+    return any(s_ == k["signature"] for s_, _ in factory_configurations())
 
 
 def model_verdicts(lines, violations) -> int:
@@ -597,9 +625,9 @@ def replay(path: str) -> int:
         print("no input in replay file:", j.get("what"))
         return 1
     if rc.get("factory_configurations"):
-        r = factory_configurations()
-        print("property violated: " + r if r else "property holds for factory-made configuration objects")
-        return 1 if r else 0
+        rs = [w for s_, w in factory_configurations() if rc["factory_configurations"] in (True, s_)]
+        print("property violated: " + rs[0] if rs else "property holds for factory-made configuration objects and cross-type equal parameters")
+        return 1 if rs else 0
     if rc.get("construction_history"):
         r = construction_history("quick")
         print("property violated: " + r if r else "property holds on this construction history")
